@@ -286,6 +286,27 @@ def validate_trace(module, cfg, trace, heap="3g", timeout_s=1800):
     return {"states": r["distinct"], "generated": r["generated"], "bad": bad, "wall": r["wall"], "violated": r["violated"], "reports": reports}
 
 
+
+# ------------------------------------------------------------------------------------------ apalache
+
+def apalache(module, cinit, init, inv, length, timeout_s=900):
+    """apalache-mc check on a typed TLA+ module (symbolic, bounded).  Returns dict(ok, error, out, wall): ok = no error up
+    to `length`; error = the invariant is violated; anything else (timeout, crash) raises ToolError."""
+    wd = workdir("apalache_%s_%s_%d" % (os.path.basename(module).replace(".tla", ""), cinit, length))
+    t0 = time.time()
+    try:
+        p = subprocess.run(["timeout", str(timeout_s), "apalache-mc", "check", "--out-dir=" + os.path.join(wd, "out"), "--cinit=" + cinit, "--init=" + init,
+                            "--inv=" + inv, "--length=%d" % length, module], cwd=wd, stdout=subprocess.PIPE, stderr=subprocess.STDOUT, text=True)
+    except FileNotFoundError:
+        raise ToolError("apalache-mc not found")
+    out = p.stdout
+    ok = "EXITCODE: OK" in out and "The outcome is: NoError" in out
+    err = "The outcome is: Error" in out
+    if not ok and not err:
+        raise ToolError("apalache-mc failed on %s (%s, %s, %s, length %d):\n%s" % (module, cinit, init, inv, length, out[-2000:]))
+    shutil.rmtree(os.path.join(wd, "out"), ignore_errors=True)
+    return {"ok": ok, "error": err, "out": out, "wall": time.time() - t0}
+
 # --------------------------------------------------------------------------------- known findings
 
 def load_known():
